@@ -222,3 +222,849 @@ Lemma is_lbc_nz c : is_lbc c = true -> c <> 0.
 Proof.
   unfold is_lbc. intros H E. subst. rewrite F_lb0_nz, F_lb1_nz in H. discriminate.
 Qed.
+
+(* ------------------------------------------------------------------ simple loops *)
+
+Definition adv (n : N) (s : stream) (s' : stream) : Prop := wfs n s' /\ le_s s s'.
+Definition adv1 {A} (n : N) (s : stream) (r : stream * A) : Prop := wfs n (fst r) /\ le_s s (fst r).
+
+Lemma adv_le n s s' a : le_s s s' -> adv n s' a -> adv n s a.
+Proof. intros H [H1 H2]. split; [assumption | eapply le_s_trans; eassumption]. Qed.
+Lemma adv1_le {A} n s s' (a : stream * A) : le_s s s' -> adv1 n s' a -> adv1 n s a.
+Proof. intros H [H1 H2]. split; [assumption | eapply le_s_trans; eassumption]. Qed.
+Lemma adv1_intro {A} n s s' (x : A) : wfs n s' -> le_s s s' -> adv1 n s (s', x).
+Proof. intros; split; assumption. Qed.
+#[export] Hint Resolve adv1_intro : opt.
+
+Lemma skip_while_f_safe n p : p 0 = false -> forall fuel s,
+  wfs n s -> (length (s_rest s) < fuel)%nat -> safe n (adv n s) (skip_while_f fuel p s).
+Proof.
+  intros Hp. induction fuel as [|f IH]; intros s Hw Hf; [lia|].
+  cbn [skip_while_f]. destruct (wfs_peek _ _ Hw) as [c [r [Hr Hpk]]]. rewrite Hpk. cbn [bind].
+  destruct (p c) eqn:E.
+  - assert (Hc : c <> 0) by (intro; subst; congruence).
+    destruct (forward_1 _ _ _ Hw Hpk Hc) as [s1 [H1 [Hw1 Hlt]]]. rewrite H1. cbn [bind].
+    eapply safe_mono. { apply IH; [assumption| unfold lt_s in Hlt; lia]. }
+    intros s' [Hw' Hle]. split; [assumption|]. unfold le_s, lt_s in *. lia.
+  - cbn [safe]. split; auto with opt.
+Qed.
+
+Lemma skip_while_safe n p s : p 0 = false -> wfs n s -> safe n (adv n s) (skip_while p s).
+Proof. intros. apply skip_while_f_safe; auto; unfold fuel_of; lia. Qed.
+
+(* ------------------------------------------------------------------ _scan_line_break *)
+
+Definition lb_post (n : N) (s : stream) (r : stream * str) : Prop :=
+  wfs n (fst r) /\ le_s s (fst r) /\ (snd r = [] -> fst r = s) /\ (snd r <> [] -> lt_s s (fst r)) /\
+  (forall ch, peek s 0 = Ok ch -> is_lbc ch = true -> snd r <> []).
+
+Lemma lb_post_cons n s s' x lb : wfs n s' -> lt_s s s' -> lb_post n s (s', x :: lb).
+Proof.
+  intros Hw Hlt. unfold lb_post. cbn [fst snd].
+  split; [assumption|]. split; [auto with opt|]. split; [discriminate|].
+  split; [auto|]. intros; discriminate.
+Qed.
+
+Lemma scan_line_break_safe n s : wfs n s -> safe n (lb_post n s) (scan_line_break s).
+Proof.
+  intros Hw. unfold scan_line_break.
+  destruct (wfs_peek _ _ Hw) as [c [r [Hr Hpk]]]. rewrite Hpk. cbn [bind].
+  destruct (mem_N c in_scan_line_break_0) eqn:E0.
+  - assert (Hc : c <> 0) by (eapply mem_nz; [apply F_lb0_nz | eassumption]).
+    destruct (str_eqb (prefix s 2) [c_cr; c_lf]) eqn:Ecrlf.
+    + apply str_eqb_eq in Ecrlf. unfold prefix in Ecrlf.
+      destruct (forward_ok_len n 2 s Hw) as [s' [H1 [H2 H3]]].
+      { rewrite Ecrlf. repeat constructor; discriminate. }
+      rewrite H1. cbn [bind safe]. apply lb_post_cons; [assumption | unfold lt_s; lia].
+    + destruct (forward_1 _ _ _ Hw Hpk Hc) as [s' [H1 [H2 H3]]].
+      rewrite H1. cbn [bind safe]. apply lb_post_cons; assumption.
+  - destruct (mem_N c in_scan_line_break_1) eqn:E1.
+    + assert (Hc : c <> 0) by (eapply mem_nz; [apply F_lb1_nz | eassumption]).
+      destruct (forward_1 _ _ _ Hw Hpk Hc) as [s' [H1 [H2 H3]]].
+      rewrite H1. cbn [bind safe]. apply lb_post_cons; assumption.
+    + cbn [safe]. unfold lb_post. cbn [fst snd].
+      split; [assumption|]. split; [auto with opt|]. split; [reflexivity|].
+      split; [congruence|].
+      intros ch Hch Hl. rewrite Hpk in Hch. inversion Hch; subst ch.
+      unfold is_lbc in Hl. rewrite E0, E1 in Hl. discriminate.
+Qed.
+
+(* a line break that is known to be one makes progress *)
+Lemma scan_line_break_progress n s c : wfs n s -> peek s 0 = Ok c -> is_lbc c = true ->
+  safe n (fun r => wfs n (fst r) /\ lt_s s (fst r)) (scan_line_break s).
+Proof.
+  intros Hw Hp Hl. eapply safe_mono; [apply scan_line_break_safe; assumption|].
+  intros [s' lb] (H1 & H2 & H3 & H4 & H5). cbn [fst snd] in *. split; [assumption|].
+  apply H4. eapply H5; eassumption.
+Qed.
+
+(* ------------------------------------------------------------------ _scan_to_next_token *)
+
+Lemma stnt_f_safe n : forall fuel s, wfs n s -> (length (s_rest s) < fuel)%nat ->
+  safe n (adv n s) (scan_to_next_token_f fuel s).
+Proof.
+  induction fuel as [|f IH]; intros s Hw Hf; [lia|]. cbn [scan_to_next_token_f].
+  eapply safe_bind. { apply skip_while_safe; [reflexivity | assumption]. }
+  intros s1 [Hw1 Hle1]. destruct (wfs_peek _ _ Hw1) as [c [r [Hr Hpk]]]. rewrite Hpk. cbn [bind].
+  eapply safe_bind with (Q := adv n s1).
+  { destruct (c =? c_hash).
+    - apply skip_while_safe; [cbn beta; rewrite F_stnt; reflexivity | assumption].
+    - cbn [safe]. split; auto with opt. }
+  intros s2 [Hw2 Hle2].
+  eapply safe_bind. { apply scan_line_break_safe; eassumption. }
+  intros [s3 lb] (Hw3 & Hle3 & Hnil & Hcons & _). cbn [fst snd] in *.
+  destruct lb as [|x lb]; cbn [nonempty negb].
+  - cbn [safe]. split; [assumption|]. unfold le_s in *. lia.
+  - assert (Hlt : lt_s s2 s3) by (apply Hcons; discriminate).
+    eapply safe_mono. { apply IH; [assumption|]. unfold le_s, lt_s in *. lia. }
+    intros s' [Hw' Hle']. split; [assumption|]. unfold le_s, lt_s in *. lia.
+Qed.
+
+Lemma stnt_safe n s : wfs n s -> safe n (adv n s) (scan_to_next_token s).
+Proof.
+  intros Hw. unfold scan_to_next_token.
+  eapply safe_bind with (Q := adv n s).
+  { destruct (s_idx s =? 0); [|cbn [safe]; split; auto with opt].
+    destruct (wfs_peek _ _ Hw) as [c [r [Hr Hpk]]]. rewrite Hpk. cbn [bind].
+    destruct (c =? c_bom) eqn:E; [|cbn [safe]; split; auto with opt].
+    apply N.eqb_eq in E.
+    assert (Hc : c <> 0) by (subst; discriminate).
+    destruct (forward_1 _ _ _ Hw Hpk Hc) as [s' [H1 [H2 H3]]]. rewrite H1.
+    cbn [safe]. split; auto with opt. }
+  intros s0 [Hw0 Hle0]. eapply safe_mono.
+  { apply stnt_f_safe; [assumption | unfold fuel_of; lia]. }
+  intros s' [Hw' Hle']. split; [assumption|]. eapply le_s_trans; eassumption.
+Qed.
+
+(* ------------------------------------------------------------------ plain scalars *)
+
+Lemma plain_breaks_f_safe n : forall fuel s br, wfs n s -> (length (s_rest s) < fuel)%nat ->
+  safe n (adv1 n s) (plain_breaks_f fuel s br).
+Proof.
+  induction fuel as [|f IH]; intros s br Hw Hf; [lia|]. cbn [plain_breaks_f].
+  destruct (wfs_peek _ _ Hw) as [c [r [Hr Hpk]]]. rewrite Hpk. cbn [bind].
+  destruct (mem_N c in_scan_plain_spaces_1) eqn:Em; [|cbn [safe]; auto with opt].
+  destruct (c =? c_space) eqn:Es.
+  - apply N.eqb_eq in Es. assert (Hc : c <> 0) by (subst; discriminate).
+    destruct (forward_1 _ _ _ Hw Hpk Hc) as [s' [H1 [H2 H3]]]. rewrite H1. cbn [bind].
+    eapply safe_mono. { apply IH; [assumption | unfold lt_s in *; lia]. }
+    intros a Ha. eapply adv1_le; [|eassumption]. auto with opt.
+  - pose proof (mem_forallb _ _ _ F_ps1 Em) as Hl. cbn beta in Hl. rewrite Es in Hl. cbn [orb] in Hl.
+    eapply safe_bind. { eapply scan_line_break_progress; eassumption. }
+    intros [s' lb] [Hw' Hlt]. cbn [fst] in *.
+    eapply safe_mono. { apply IH; [assumption | unfold lt_s in *; lia]. }
+    intros a Ha. eapply adv1_le; [|eassumption]. auto with opt.
+Qed.
+
+Lemma scan_plain_spaces_safe n s b : wfs n s -> safe n (adv1 n s) (scan_plain_spaces s b).
+Proof.
+  intros Hw. unfold scan_plain_spaces.
+  destruct (count_forward n (fun ch => ch =? c_space) s eq_refl Hw) as [k [s1 [Hk [Hf [Hw1 Hlen]]]]].
+  rewrite Hk. cbn [bind]. rewrite Hf. cbn [bind].
+  destruct (wfs_peek _ _ Hw1) as [c [r [Hr Hpk]]]. rewrite Hpk. cbn [bind].
+  destruct (b && mem_N c in_scan_plain_spaces_0).
+  - eapply safe_bind. { apply scan_line_break_safe; eassumption. }
+    intros [s2 lb] (Hw2 & Hle2 & _). cbn [fst snd] in *.
+    eapply safe_bind. { apply plain_breaks_f_safe; [eassumption | unfold fuel_of; lia]. }
+    intros [s3 brk] [Hw3 Hle3]. cbn [fst] in *. cbn [safe]. apply adv1_intro; [assumption|].
+    unfold le_s in *. lia.
+  - destruct (nonempty (prefix s k)); cbn [safe]; (apply adv1_intro; [assumption | unfold le_s; lia]).
+Qed.
+
+Lemma plain_len_ok is_key : forall pre,
+  exists k, plain_len is_key (pre ++ [0]) = Ok k /\ Forall nz (firstn k (pre ++ [0])).
+Proof.
+  induction pre as [|a pre IH]; cbn [app plain_len].
+  - rewrite F_plain0. exists O. split; [reflexivity | constructor].
+  - destruct (mem_N a in_scan_plain_scalar_0) eqn:E; [exists O; split; [reflexivity | constructor]|].
+    assert (Ha : a <> 0) by (intro; subst; rewrite F_plain0 in E; discriminate).
+    destruct IH as [k [Hk HF]].
+    assert (Hrec : exists k', (do n <- plain_len is_key (pre ++ [0]); Ok (S n)) = Ok k' /\
+                              Forall nz (firstn k' (a :: pre ++ [0]))).
+    { rewrite Hk. cbn [bind]. exists (S k). split; [reflexivity|]. cbn [firstn]. constructor; assumption. }
+    destruct (is_key && (a =? c_colon)).
+    + destruct (pre ++ [0]) as [|x l'] eqn:El; [destruct pre; discriminate|].
+      cbn [bind]. destruct (mem_N x in_scan_plain_scalar_1).
+      * exists O. split; [reflexivity | constructor].
+      * exact Hrec.
+    + cbn [bind]. exact Hrec.
+Qed.
+
+Lemma plain_scalar_f_safe n is_key : forall fuel s ch sp,
+  wfs n s -> (length (s_rest s) < fuel)%nat ->
+  safe n (adv1 n s) (plain_scalar_f fuel is_key s ch sp).
+Proof.
+  induction fuel as [|f IH]; intros s chs sp Hw Hf; [lia|]. cbn [plain_scalar_f].
+  destruct (wfs_peek _ _ Hw) as [c [r [Hr Hpk]]]. rewrite Hpk. cbn [bind].
+  destruct (c =? c_hash); [cbn [safe]; auto with opt|].
+  destruct Hw as [Hi [pre Hpre]]. destruct (plain_len_ok is_key pre) as [k [Hk HF]].
+  rewrite <- Hpre in Hk, HF. rewrite Hk. cbn [bind].
+  assert (Hw : wfs n s) by (split; eauto).
+  destruct k as [|k]; [cbn [safe]; auto with opt|].
+  destruct (forward_ok_len n (S k) s Hw HF) as [s1 [H1 [Hw1 Hl1]]]. rewrite H1. cbn [bind].
+  eapply safe_bind. { apply scan_plain_spaces_safe; eassumption. }
+  intros [s2 sp'] [Hw2 Hle2]. cbn [fst] in *.
+  assert (Hlt : lt_s s s2) by (unfold le_s, lt_s in *; lia).
+  destruct sp' as [|x sp']; [cbn [safe]; auto with opt|].
+  destruct (wfs_peek _ _ Hw2) as [c2 [r2 [Hr2 Hpk2]]]. rewrite Hpk2. cbn [bind].
+  destruct ((c2 =? c_hash) || (s_col s2 <? (if is_key then 0 else 1)));
+    [cbn [safe]; auto with opt|].
+  eapply safe_mono. { apply IH; [assumption | unfold lt_s in *; lia]. }
+  intros a Ha. eapply adv1_le; [|eassumption]. auto with opt.
+Qed.
+
+Lemma scan_plain_scalar_safe n s is_key : wfs n s -> safe n (adv1 n s) (scan_plain_scalar s is_key).
+Proof.
+  intros Hw. unfold scan_plain_scalar.
+  eapply safe_bind. { apply plain_scalar_f_safe; [eassumption | unfold fuel_of; lia]. }
+  intros [s' ch] [Hw' Hle']. cbn [fst safe] in *. split; assumption.
+Qed.
+
+(* ------------------------------------------------------------------ flow scalars *)
+
+Lemma flow_scalar_breaks_f_safe n : forall fuel s ch, wfs n s -> (length (s_rest s) < fuel)%nat ->
+  safe n (adv1 n s) (flow_scalar_breaks_f fuel s ch).
+Proof.
+  induction fuel as [|f IH]; intros s chs Hw Hf; [lia|]. cbn [flow_scalar_breaks_f].
+  eapply safe_bind. { apply skip_while_safe; [cbn beta; apply F_fb0 | assumption]. }
+  intros s1 [Hw1 Hle1]. destruct (wfs_peek _ _ Hw1) as [c [r [Hr Hpk]]]. rewrite Hpk. cbn [bind].
+  destruct (mem_N c in_scan_flow_scalar_breaks_1) eqn:Em; [|cbn [safe]; auto with opt].
+  pose proof (mem_forallb _ _ _ F_fb1 Em) as Hl.
+  eapply safe_bind. { eapply scan_line_break_progress; eassumption. }
+  intros [s2 lb] [Hw2 Hlt]. cbn [fst] in *.
+  eapply safe_mono. { apply IH; [assumption | unfold le_s, lt_s in *; lia]. }
+  intros a Ha. eapply adv1_le; [|eassumption]. unfold le_s, lt_s in *; lia.
+Qed.
+
+Lemma scan_flow_scalar_breaks_safe n s : wfs n s -> safe n (adv1 n s) (scan_flow_scalar_breaks s).
+Proof. intros. apply flow_scalar_breaks_f_safe; [assumption | unfold fuel_of; lia]. Qed.
+
+Lemma count_while_pos p c l k : count_while p (c :: l) = Ok k -> p c = true -> k <> O.
+Proof.
+  cbn [count_while]. intros H Hp. rewrite Hp in H.
+  destruct (count_while p l); cbn [bind] in H; inversion H. discriminate.
+Qed.
+
+Lemma count_while_zero p c l : p c = false -> count_while p (c :: l) = Ok O.
+Proof. intros Hp. cbn [count_while]. rewrite Hp. reflexivity. Qed.
+
+(* either white space / a break was consumed, or the current character is none of these *)
+Definition sp_post (n : N) (s : stream) (r : stream * list str) : Prop :=
+  wfs n (fst r) /\
+  (lt_s s (fst r) \/
+   (fst r = s /\ forall ch, peek s 0 = Ok ch ->
+        mem_N ch in_scan_flow_scalar_spaces_0 = false /\ is_end ch = false /\
+        mem_N ch in_scan_flow_scalar_spaces_1 = false)).
+
+Lemma scan_flow_scalar_spaces_safe n s : wfs n s -> safe n (sp_post n s) (scan_flow_scalar_spaces s).
+Proof.
+  intros Hw. unfold scan_flow_scalar_spaces.
+  destruct (wfs_peek _ _ Hw) as [c [r [Hr Hpk]]].
+  destruct (mem_N c in_scan_flow_scalar_spaces_0) eqn:Ews.
+  - destruct (count_forward n (fun ch => mem_N ch in_scan_flow_scalar_spaces_0) s F_fs0 Hw)
+      as [k [s1 [Hk [Hf [Hw1 Hlen]]]]].
+    rewrite Hk. cbn [bind]. rewrite Hf. cbn [bind].
+    assert (Hk0 : k <> O). { rewrite Hr in Hk. eapply count_while_pos; eassumption. }
+    assert (Hlt : lt_s s s1) by (unfold lt_s; lia).
+    destruct (wfs_peek _ _ Hw1) as [c1 [r1 [Hr1 Hpk1]]]. rewrite Hpk1. cbn [bind].
+    destruct (is_end c1); [cbn [safe]; apply (wfs_idx _ _ Hw1)|].
+    destruct (mem_N c1 in_scan_flow_scalar_spaces_1).
+    + eapply safe_bind. { apply scan_line_break_safe; eassumption. }
+      intros [s2 lb] (Hw2 & Hle2 & _). cbn [fst snd] in *.
+      eapply safe_bind. { apply scan_flow_scalar_breaks_safe; eassumption. }
+      intros [s3 brk] [Hw3 Hle3]. cbn [fst] in *. cbn [safe]. split; cbn [fst]; [assumption|].
+      left. unfold le_s, lt_s in *. lia.
+    + cbn [safe]. split; cbn [fst]; auto.
+  - assert (Hcz : count_while (fun ch => mem_N ch in_scan_flow_scalar_spaces_0) (s_rest s) = Ok O)
+      by (rewrite Hr; apply count_while_zero; assumption).
+    rewrite Hcz. cbn [bind forward]. rewrite Hpk. cbn [bind].
+    destruct (is_end c) eqn:Ee; [cbn [safe]; apply (wfs_idx _ _ Hw)|].
+    destruct (mem_N c in_scan_flow_scalar_spaces_1) eqn:Enl.
+    + pose proof (mem_forallb _ _ _ F_fs1 Enl) as Hl.
+      eapply safe_bind. { eapply scan_line_break_progress; eassumption. }
+      intros [s2 lb] [Hw2 Hlt2]. cbn [fst] in *.
+      eapply safe_bind. { apply scan_flow_scalar_breaks_safe; eassumption. }
+      intros [s3 brk] [Hw3 Hle3]. cbn [fst] in *. cbn [safe]. split; cbn [fst]; [assumption|].
+      left. unfold le_s, lt_s in *. lia.
+    + cbn [safe]. split; cbn [fst]; [assumption|]. right. split; [reflexivity|].
+      intros ch Hch. rewrite Hpk in Hch. inversion Hch; subst. auto.
+Qed.
+
+Lemma assoc_In {A} c (l : list (N * A)) v : assoc c l = Some v -> In (c, v) l.
+Proof.
+  induction l as [|[k x] l IH]; cbn [assoc]; [discriminate|].
+  destruct (c =? k) eqn:E.
+  - intros H. inversion H; subst. apply N.eqb_eq in E. subst. left. reflexivity.
+  - intros H. right. auto.
+Qed.
+
+Lemma hex_check_ok : forall k pre, exists b, hex_check k (pre ++ [0]) = Ok b /\
+  (b = true -> Forall (fun c => mem_N c in_scan_flow_scalar_non_spaces_2 = true) (firstn k (pre ++ [0]))
+               /\ length (firstn k (pre ++ [0])) = k).
+Proof.
+  induction k as [|k IH]; intros pre.
+  - exists true. split; [reflexivity|]. intros _. cbn. split; [constructor | reflexivity].
+  - cbn [hex_check]. destruct pre as [|c pre]; cbn [app].
+    + rewrite F_hex_nz. exists false. split; [reflexivity | discriminate].
+    + destruct (mem_N c in_scan_flow_scalar_non_spaces_2) eqn:E.
+      * destruct (IH pre) as [b [Hb Hf]]. exists b. split; [assumption|].
+        intros Hbt. destruct (Hf Hbt) as [H1 H2]. cbn [firstn length]. split; [constructor; assumption | lia].
+      * exists false. split; [reflexivity | discriminate].
+Qed.
+
+Lemma hex_acc_ok : forall l a, Forall (fun c => mem_N c in_scan_flow_scalar_non_spaces_2 = true) l ->
+  exists v, hex_acc a l = Ok v.
+Proof.
+  induction l as [|c l IH]; intros a HF; cbn [hex_acc]; [eauto|].
+  inversion HF as [|? ? Hc HF']; subst.
+  pose proof (mem_forallb _ _ _ F_hex_dig Hc) as Hd. cbn beta in Hd.
+  destruct (hexdig c); [|discriminate]. apply IH. assumption.
+Qed.
+
+Lemma hex_nz l : Forall (fun c => mem_N c in_scan_flow_scalar_non_spaces_2 = true) l -> Forall nz l.
+Proof.
+  intros H. eapply Forall_impl; [|exact H]. intros c Hc. eapply mem_nz; [apply F_hex_nz | exact Hc].
+Qed.
+
+Definition prog1 {A} (n : N) (s : stream) (r : stream * A) : Prop := wfs n (fst r) /\ lt_s s (fst r).
+
+Lemma scan_escape_safe n s ch : wfs n s -> peek s 0 = Ok ch -> ch <> 0 ->
+  safe n (prog1 n s) (scan_escape s).
+Proof.
+  intros Hw Hpk Hc. unfold scan_escape.
+  destruct (forward_1 _ _ _ Hw Hpk Hc) as [s1 [H1 [Hw1 Hlt1]]]. rewrite H1. cbn [bind].
+  destruct (wfs_peek _ _ Hw1) as [c [r [Hr Hpk1]]]. rewrite Hpk1. cbn [bind].
+  destruct (assoc c ESCAPE_REPLACEMENTS) as [rep|] eqn:Erep.
+  { apply assoc_In in Erep. pose proof F_repl_nz as HF. rewrite forallb_forall in HF.
+    specialize (HF _ Erep). cbn [fst] in HF. apply negb_true_iff, N.eqb_neq in HF.
+    destruct (forward_1 _ _ _ Hw1 Hpk1 HF) as [s2 [H2 [Hw2 Hlt2]]]. rewrite H2. cbn [bind safe].
+    split; cbn [fst]; [assumption | unfold lt_s in *; lia]. }
+  destruct (assoc c ESCAPE_CODES) as [len|] eqn:Ecode.
+  { apply assoc_In in Ecode. pose proof F_codes as HF. rewrite forallb_forall in HF.
+    specialize (HF _ Ecode). cbn [fst snd] in HF. apply andb_true_iff in HF as [HF1 HF2].
+    apply negb_true_iff, N.eqb_neq in HF1. apply negb_true_iff, N.eqb_neq in HF2.
+    destruct (forward_1 _ _ _ Hw1 Hpk1 HF1) as [s2 [H2 [Hw2 Hlt2]]]. rewrite H2. cbn [bind].
+    destruct Hw2 as [Hi2 [pre2 Hp2]].
+    destruct (hex_check_ok (N.to_nat len) pre2) as [b [Hb Hbt]]. rewrite <- Hp2 in Hb, Hbt.
+    assert (Hw2 : wfs n s2) by (split; eauto).
+    rewrite Hb. cbn [bind].
+    destruct b; cbn [negb]; [|cbn [safe]; apply (wfs_idx _ _ Hw2)].
+    destruct (Hbt eq_refl) as [Hhex Hlen].
+    unfold prefix, int16.
+    destruct (firstn (N.to_nat len) (s_rest s2)) as [|d ds] eqn:Efn.
+    { cbn [length] in Hlen. lia. }
+    destruct (hex_acc_ok (d :: ds) 0 Hhex) as [v Hv]. rewrite Hv. cbn [bind].
+    pose proof F_guard as HG. destruct CHR_GUARD as [g|]; [|discriminate].
+    destruct (g <? v) eqn:Egv; [cbn [safe]; apply (wfs_idx _ _ Hw2)|].
+    assert (Hchr : py_chr v = Ok v). { unfold py_chr. replace (v <=? 1114111) with true by lia. reflexivity. }
+    rewrite Hchr. cbn [bind].
+    destruct (forward_ok_len n (N.to_nat len) s2 Hw2) as [s3 [H3 [Hw3 Hl3]]].
+    { rewrite Efn. apply hex_nz. assumption. }
+    rewrite H3. cbn [bind safe]. split; cbn [fst]; [assumption | unfold lt_s in *; lia]. }
+  destruct (mem_N c in_scan_flow_scalar_non_spaces_3).
+  - eapply safe_bind. { apply scan_line_break_safe; eassumption. }
+    intros [s2 lb] (Hw2 & Hle2 & _). cbn [fst snd] in *.
+    eapply safe_mono. { apply scan_flow_scalar_breaks_safe; eassumption. }
+    intros [s3 b] [Hw3 Hle3]. cbn [fst] in *. split; cbn [fst]; [assumption|].
+    unfold le_s, lt_s in *. lia.
+  - cbn [safe]. apply (wfs_idx _ _ Hw1).
+Qed.
+
+(* what is known about the current character when the if / elif chain returns *)
+Definition stays (double : bool) (ch : N) : Prop :=
+  if double then ch <> c_squote /\ ch <> c_bslash
+  else mem_N ch in_scan_flow_scalar_non_spaces_1 = false.
+
+Lemma flow_ns_branch_safe n s double : wfs n s ->
+  safe n (fun b => match b with
+                   | Some r => prog1 n s r
+                   | None => forall ch, peek s 0 = Ok ch -> stays double ch
+                   end) (flow_ns_branch s double).
+Proof.
+  intros Hw. unfold flow_ns_branch.
+  destruct (wfs_peek _ _ Hw) as [c [r [Hr Hpk]]]. rewrite Hpk. cbn [bind].
+  destruct (negb double && (c =? c_squote)) eqn:Eq.
+  - apply andb_true_iff in Eq as [Ed Ec]. apply N.eqb_eq in Ec.
+    assert (Hc : c <> 0) by (subst; discriminate).
+    destruct (wfs_tail _ _ _ _ Hw Hr Hc) as [pre' Hp'].
+    assert (Hp1 : exists x, peek s 1 = Ok x /\ nth_error r 0 = Some x).
+    { unfold peek. rewrite Hr. cbn [nth_error]. rewrite Hp'. destruct pre'; cbn; eauto. }
+    destruct Hp1 as [x [Hx Hnx]]. rewrite Hx. cbn [bind].
+    destruct (x =? c_squote) eqn:Ex.
+    + apply N.eqb_eq in Ex.
+      destruct (forward_ok_len n 2 s Hw) as [s2 [H2 [Hw2 Hl2]]].
+      { rewrite Hr. destruct r as [|x' r']; [discriminate|]. cbn in Hnx. inversion Hnx; subst x'.
+        cbn [firstn]. repeat constructor; [assumption | subst; discriminate]. }
+      rewrite H2. cbn [bind safe]. split; cbn [fst]; [assumption | unfold lt_s; lia].
+    + destruct double; [discriminate|]. cbn [negb andb orb].
+      destruct (mem_N c in_scan_flow_scalar_non_spaces_1) eqn:E1.
+      * destruct (forward_1 _ _ _ Hw Hpk Hc) as [s2 [H2 [Hw2 Hlt2]]]. rewrite H2. cbn [bind safe].
+        split; cbn [fst]; assumption.
+      * cbn [safe]. intros ch Hch. inversion Hch; subst ch. exact E1.
+  - cbn [bind].
+    destruct ((double && (c =? c_squote)) || (negb double && mem_N c in_scan_flow_scalar_non_spaces_1)) eqn:E2.
+    + assert (Hc : c <> 0).
+      { apply orb_true_iff in E2 as [E2|E2]; apply andb_true_iff in E2 as [_ E2].
+        - apply N.eqb_eq in E2. subst. discriminate.
+        - eapply mem_nz; [apply F_fns1 | exact E2]. }
+      destruct (forward_1 _ _ _ Hw Hpk Hc) as [s2 [H2 [Hw2 Hlt2]]]. rewrite H2. cbn [bind safe].
+      split; cbn [fst]; assumption.
+    + destruct (double && (c =? c_bslash)) eqn:E3.
+      * apply andb_true_iff in E3 as [_ E3]. apply N.eqb_eq in E3.
+        assert (Hc : c <> 0) by (subst; discriminate).
+        eapply safe_bind. { eapply scan_escape_safe; eassumption. }
+        intros a Ha. cbn [safe]. exact Ha.
+      * cbn [safe]. intros ch Hch. inversion Hch; subst ch.
+        unfold stays. destruct double; cbn [negb andb orb] in *.
+        -- split; intro; subst; discriminate.
+        -- exact E2.
+Qed.
+
+Definition ns_post (n : N) (double : bool) (s : stream) (r : stream * list str) : Prop :=
+  wfs n (fst r) /\
+  (lt_s s (fst r) \/
+   (fst r = s /\ forall ch, peek s 0 = Ok ch ->
+        mem_N ch in_scan_flow_scalar_non_spaces_0 = true /\ stays double ch)).
+
+Lemma ns_post_le n double s s' r : le_s s s' -> lt_s s' (fst r) \/ le_s s' (fst r) /\ lt_s s s' ->
+  wfs n (fst r) -> ns_post n double s r.
+Proof.
+  intros Hle H Hw. split; [assumption|]. left. unfold le_s, lt_s in *. lia.
+Qed.
+
+Lemma flow_non_spaces_f_safe n double : forall fuel s chunks,
+  wfs n s -> (length (s_rest s) < fuel)%nat ->
+  safe n (ns_post n double s) (flow_non_spaces_f fuel s double chunks).
+Proof.
+  induction fuel as [|f IH]; intros s chunks Hw Hf; [lia|]. cbn [flow_non_spaces_f].
+  destruct (wfs_peek _ _ Hw) as [c [r [Hr Hpk]]].
+  destruct (mem_N c in_scan_flow_scalar_non_spaces_0) eqn:E0.
+  - (* no ordinary character: the stream does not move before the branch *)
+    assert (Hcz : count_while (fun ch => negb (mem_N ch in_scan_flow_scalar_non_spaces_0)) (s_rest s) = Ok O)
+      by (rewrite Hr; apply count_while_zero; rewrite E0; reflexivity).
+    rewrite Hcz. cbn [bind forward].
+    eapply safe_bind. { apply flow_ns_branch_safe; eassumption. }
+    intros [[s2 cs]|] Hb.
+    + destruct Hb as [Hw2 Hlt2]. cbn [fst] in *.
+      eapply safe_mono. { apply IH; [assumption | unfold lt_s in *; lia]. }
+      intros a [Hwa Ha]. split; [assumption|]. left.
+      destruct Ha as [Ha|[Ha _]]; [|rewrite Ha]; unfold lt_s in *; lia.
+    + cbn [safe]. split; cbn [fst]; [assumption|]. right. split; [reflexivity|].
+      intros ch Hch. split; [|auto]. rewrite Hpk in Hch. inversion Hch; subst. assumption.
+  - destruct (count_forward n (fun ch => negb (mem_N ch in_scan_flow_scalar_non_spaces_0)) s) as
+        [k [s1 [Hk [Hfw [Hw1 Hlen]]]]]; [cbn beta; rewrite F_fns0; reflexivity | assumption |].
+    rewrite Hk. cbn [bind]. rewrite Hfw. cbn [bind].
+    assert (Hk0 : k <> O). { rewrite Hr in Hk. eapply count_while_pos; [eassumption|]. cbn beta. rewrite E0. reflexivity. }
+    assert (Hlt1 : lt_s s s1) by (unfold lt_s; lia).
+    eapply safe_bind. { apply flow_ns_branch_safe; eassumption. }
+    intros [[s2 cs]|] Hb.
+    + destruct Hb as [Hw2 Hlt2]. cbn [fst] in *.
+      eapply safe_mono. { apply IH; [assumption | unfold lt_s in *; lia]. }
+      intros a [Hwa Ha]. split; [assumption|]. left.
+      destruct Ha as [Ha|[Ha _]]; [|rewrite Ha]; unfold lt_s in *; lia.
+    + cbn [safe]. split; cbn [fst]; [assumption|]. left. assumption.
+Qed.
+
+Lemma scan_flow_scalar_non_spaces_safe n double s : wfs n s ->
+  safe n (ns_post n double s) (scan_flow_scalar_non_spaces s double).
+Proof. intros. apply flow_non_spaces_f_safe; [assumption | unfold fuel_of; lia]. Qed.
+
+Definition quote_ok (double : bool) (quote : N) : Prop :=
+  (double = true /\ quote = c_dquote) \/ (double = false /\ quote = c_squote).
+
+Lemma flow_scalar_f_safe n double quote : quote_ok double quote -> forall fuel s chunks,
+  wfs n s -> (length (s_rest s) < fuel)%nat ->
+  safe n (fun r => adv1 n s r /\ peek (fst r) 0 = Ok quote) (flow_scalar_f fuel s double quote chunks).
+Proof.
+  intros Hq. induction fuel as [|f IH]; intros s chunks Hw Hf; [lia|]. cbn [flow_scalar_f].
+  destruct (wfs_peek _ _ Hw) as [c [r [Hr Hpk]]]. rewrite Hpk. cbn [bind].
+  destruct (c =? quote) eqn:Ecq; cbn [negb].
+  { apply N.eqb_eq in Ecq. subst c. cbn [safe]. split; [auto with opt | exact Hpk]. }
+  apply N.eqb_neq in Ecq.
+  eapply safe_bind. { apply scan_flow_scalar_spaces_safe; eassumption. }
+  intros [s1 c1] [Hw1 Hsp]. cbn [fst] in *.
+  eapply safe_bind. { apply scan_flow_scalar_non_spaces_safe; eassumption. }
+  intros [s2 c2] [Hw2 Hns]. cbn [fst] in *.
+  assert (Hlt : lt_s s s2).
+  { destruct Hsp as [Hsp|[Hsp1 Hsp2]].
+    - destruct Hns as [Hns|[Hns _]]; [|rewrite Hns]; unfold lt_s in *; lia.
+    - subst s1. destruct Hns as [Hns|[Hns1 Hns2]]; [assumption|]. exfalso.
+      destruct (Hsp2 _ Hpk) as (Hws & Hend & Hnl). destruct (Hns2 _ Hpk) as [Hin Hst].
+      pose proof (mem_forallb _ _ _ F_fns0_class Hin) as Hcl. cbn beta in Hcl.
+      rewrite Hws, Hend, Hnl in Hcl. rewrite !orb_false_r in Hcl.
+      unfold stays in Hst.
+      destruct Hq as [[Hd Hqq]|[Hd Hqq]]; subst double quote.
+      + destruct Hst as [Hs1 Hs2].
+        apply orb_true_iff in Hcl as [Hcl|Hcl]; [apply orb_true_iff in Hcl as [Hcl|Hcl]|];
+          apply N.eqb_eq in Hcl; congruence.
+      + destruct F_fns1 as (Fq & Fb & _).
+        apply orb_true_iff in Hcl as [Hcl|Hcl]; [apply orb_true_iff in Hcl as [Hcl|Hcl]|];
+          apply N.eqb_eq in Hcl; subst c; congruence. }
+  eapply safe_mono. { apply IH; [assumption | unfold lt_s in *; lia]. }
+  intros a [Ha Hpa]. split; [|assumption]. eapply adv1_le; [|eassumption]. auto with opt.
+Qed.
+
+Lemma scan_flow_scalar_safe n s style : wfs n s -> peek s 0 = Ok style ->
+  style = c_squote \/ style = c_dquote ->
+  safe n (prog1 n s) (scan_flow_scalar s style).
+Proof.
+  intros Hw Hpk Hst. unfold scan_flow_scalar. rewrite Hpk. cbn [bind].
+  assert (Hc : style <> 0) by (destruct Hst; subst; discriminate).
+  assert (Hq : quote_ok (style =? c_dquote) style).
+  { destruct Hst; subst; [right | left]; split; reflexivity. }
+  destruct (forward_1 _ _ _ Hw Hpk Hc) as [s1 [H1 [Hw1 Hlt1]]]. rewrite H1. cbn [bind].
+  eapply safe_bind. { apply scan_flow_scalar_non_spaces_safe; eassumption. }
+  intros [s2 c0] [Hw2 Hns]. cbn [fst] in *.
+  assert (Hle2 : le_s s1 s2).
+  { destruct Hns as [Hns|[Hns _]]; [|rewrite Hns]; auto with opt. }
+  eapply safe_bind. { apply (flow_scalar_f_safe n _ _ Hq); [eassumption | unfold fuel_of; lia]. }
+  intros [s3 chunks] [[Hw3 Hle3] Hpk3]. cbn [fst] in *.
+  destruct (forward_1 _ _ _ Hw3 Hpk3 Hc) as [s4 [H4 [Hw4 Hlt4]]]. rewrite H4. cbn [bind safe].
+  split; cbn [fst]; [assumption | unfold le_s, lt_s in *; lia].
+Qed.
+
+(* ------------------------------------------------------------------ block scalars *)
+
+Definition adv2 {A B} (n : N) (s : stream) (r : stream * A * B) : Prop :=
+  wfs n (fst (fst r)) /\ le_s s (fst (fst r)).
+
+Lemma digit_val_ok c : (48 <=? c) && (c <=? 57) = true -> exists v, digit_val c = Ok v.
+Proof. intros H. unfold digit_val. rewrite H. eauto. Qed.
+
+Lemma scan_block_scalar_indicators_safe n s : wfs n s ->
+  safe n (adv2 n s) (scan_block_scalar_indicators s).
+Proof.
+  intros Hw. unfold scan_block_scalar_indicators.
+  destruct (wfs_peek _ _ Hw) as [c [r [Hr Hpk]]]. rewrite Hpk. cbn [bind].
+  eapply safe_bind with (Q := adv2 n s).
+  { destruct (mem_N c in_scan_block_scalar_indicators_0) eqn:E0.
+    - assert (Hc : c <> 0) by (eapply mem_nz; [apply F_ind0_nz | eassumption]).
+      destruct (forward_1 _ _ _ Hw Hpk Hc) as [s1 [H1 [Hw1 Hlt1]]]. rewrite H1. cbn [bind].
+      destruct (wfs_peek _ _ Hw1) as [c1 [r1 [Hr1 Hpk1]]]. rewrite Hpk1. cbn [bind].
+      destruct (mem_N c1 in_scan_block_scalar_indicators_1) eqn:E1.
+      + pose proof (mem_forallb _ _ _ F_ind1 E1) as Hd. cbn beta in Hd.
+        destruct (digit_val_ok _ Hd) as [v Hv]. rewrite Hv. cbn [bind].
+        destruct (v =? 0); [cbn [safe]; apply (wfs_idx _ _ Hw1)|].
+        assert (Hc1 : c1 <> 0) by lia.
+        destruct (forward_1 _ _ _ Hw1 Hpk1 Hc1) as [s2 [H2 [Hw2 Hlt2]]]. rewrite H2. cbn [bind safe].
+        split; cbn [fst]; [assumption | unfold le_s, lt_s in *; lia].
+      + cbn [safe]. split; cbn [fst]; auto with opt.
+    - destruct (mem_N c in_scan_block_scalar_indicators_2) eqn:E2.
+      + pose proof (mem_forallb _ _ _ F_ind2 E2) as Hd. cbn beta in Hd.
+        destruct (digit_val_ok _ Hd) as [v Hv]. rewrite Hv. cbn [bind].
+        destruct (v =? 0); [cbn [safe]; apply (wfs_idx _ _ Hw)|].
+        assert (Hc : c <> 0) by lia.
+        destruct (forward_1 _ _ _ Hw Hpk Hc) as [s1 [H1 [Hw1 Hlt1]]]. rewrite H1. cbn [bind].
+        destruct (wfs_peek _ _ Hw1) as [c1 [r1 [Hr1 Hpk1]]]. rewrite Hpk1. cbn [bind].
+        destruct (mem_N c1 in_scan_block_scalar_indicators_3) eqn:E3.
+        * assert (Hc1 : c1 <> 0) by (eapply mem_nz; [apply F_ind3_nz | eassumption]).
+          destruct (forward_1 _ _ _ Hw1 Hpk1 Hc1) as [s2 [H2 [Hw2 Hlt2]]]. rewrite H2. cbn [bind safe].
+          split; cbn [fst]; [assumption | unfold le_s, lt_s in *; lia].
+        * cbn [safe]. split; cbn [fst]; auto with opt.
+      + cbn [safe]. split; cbn [fst]; auto with opt. }
+  intros [[s' ch] inc] [Hw' Hle']. cbn [fst] in *.
+  destruct (wfs_peek _ _ Hw') as [c' [r' [Hr' Hpk']]]. rewrite Hpk'. cbn [bind].
+  destruct (negb (mem_N c' in_scan_block_scalar_indicators_4)); cbn [safe].
+  - apply (wfs_idx _ _ Hw').
+  - split; cbn [fst]; assumption.
+Qed.
+
+Lemma scan_block_scalar_ignored_line_safe n s : wfs n s ->
+  safe n (adv n s) (scan_block_scalar_ignored_line s).
+Proof.
+  intros Hw. unfold scan_block_scalar_ignored_line.
+  eapply safe_bind. { apply skip_while_safe; [reflexivity | assumption]. }
+  intros s1 [Hw1 Hle1]. destruct (wfs_peek _ _ Hw1) as [c [r [Hr Hpk]]]. rewrite Hpk. cbn [bind].
+  eapply safe_bind with (Q := adv n s1).
+  { destruct (c =? c_hash).
+    - apply skip_while_safe; [cbn beta; rewrite F_ign0; reflexivity | assumption].
+    - cbn [safe]. split; auto with opt. }
+  intros s2 [Hw2 Hle2]. destruct (wfs_peek _ _ Hw2) as [c2 [r2 [Hr2 Hpk2]]]. rewrite Hpk2. cbn [bind].
+  destruct (negb (mem_N c2 in_scan_block_scalar_ignored_line_1)); [cbn [safe]; apply (wfs_idx _ _ Hw2)|].
+  eapply safe_bind. { apply scan_line_break_safe; eassumption. }
+  intros [s3 lb] (Hw3 & Hle3 & _). cbn [fst snd safe] in *. split; [assumption|].
+  unfold le_s in *. lia.
+Qed.
+
+Lemma block_indentation_f_safe n : forall fuel s ch mx, wfs n s -> (length (s_rest s) < fuel)%nat ->
+  safe n (adv2 n s) (block_indentation_f fuel s ch mx).
+Proof.
+  induction fuel as [|f IH]; intros s chs mx Hw Hf; [lia|]. cbn [block_indentation_f].
+  destruct (wfs_peek _ _ Hw) as [c [r [Hr Hpk]]]. rewrite Hpk. cbn [bind].
+  destruct (mem_N c in_scan_block_scalar_indentation_0) eqn:Em;
+    [|cbn [safe]; split; cbn [fst]; auto with opt].
+  destruct (c =? c_space) eqn:Es; cbn [negb].
+  - apply N.eqb_eq in Es. assert (Hc : c <> 0) by (subst; discriminate).
+    destruct (forward_1 _ _ _ Hw Hpk Hc) as [s' [H1 [H2 H3]]]. rewrite H1. cbn [bind].
+    eapply safe_mono. { apply IH; [assumption | unfold lt_s in *; lia]. }
+    intros a [Ha1 Ha2]. split; [assumption|]. unfold le_s, lt_s in *; lia.
+  - pose proof (mem_forallb _ _ _ F_bi0 Em) as Hl. cbn beta in Hl. rewrite Es in Hl. cbn [orb] in Hl.
+    eapply safe_bind. { eapply scan_line_break_progress; eassumption. }
+    intros [s' lb] [Hw' Hlt]. cbn [fst] in *.
+    eapply safe_mono. { apply IH; [assumption | unfold lt_s in *; lia]. }
+    intros a [Ha1 Ha2]. split; [assumption|]. unfold le_s, lt_s in *; lia.
+Qed.
+
+Lemma skip_indent_f_safe n indent : forall fuel s, wfs n s -> (length (s_rest s) < fuel)%nat ->
+  safe n (adv n s) (skip_indent_f fuel indent s).
+Proof.
+  induction fuel as [|f IH]; intros s Hw Hf; [lia|]. cbn [skip_indent_f].
+  destruct (s_col s <? indent); [|cbn [safe]; split; auto with opt].
+  destruct (wfs_peek _ _ Hw) as [c [r [Hr Hpk]]]. rewrite Hpk. cbn [bind].
+  destruct (c =? c_space) eqn:Es; [|cbn [safe]; split; auto with opt].
+  apply N.eqb_eq in Es. assert (Hc : c <> 0) by (subst; discriminate).
+  destruct (forward_1 _ _ _ Hw Hpk Hc) as [s' [H1 [H2 H3]]]. rewrite H1. cbn [bind].
+  eapply safe_mono. { apply IH; [assumption | unfold lt_s in *; lia]. }
+  intros a Ha. eapply adv_le; [|eassumption]. auto with opt.
+Qed.
+
+Lemma skip_indent_safe n indent s : wfs n s -> safe n (adv n s) (skip_indent indent s).
+Proof. intros. apply skip_indent_f_safe; [assumption | unfold fuel_of; lia]. Qed.
+
+Lemma block_breaks_f_safe n indent : forall fuel s ch, wfs n s -> (length (s_rest s) < fuel)%nat ->
+  safe n (adv1 n s) (block_breaks_f fuel indent s ch).
+Proof.
+  induction fuel as [|f IH]; intros s chs Hw Hf; [lia|]. cbn [block_breaks_f].
+  destruct (wfs_peek _ _ Hw) as [c [r [Hr Hpk]]]. rewrite Hpk. cbn [bind].
+  destruct (mem_N c in_scan_block_scalar_breaks_0) eqn:Em; [|cbn [safe]; auto with opt].
+  pose proof (mem_forallb _ _ _ F_bb0 Em) as Hl.
+  eapply safe_bind. { eapply scan_line_break_progress; eassumption. }
+  intros [s1 lb] [Hw1 Hlt1]. cbn [fst] in *.
+  eapply safe_bind. { apply skip_indent_safe; eassumption. }
+  intros s2 [Hw2 Hle2].
+  eapply safe_mono. { apply IH; [assumption | unfold le_s, lt_s in *; lia]. }
+  intros a Ha. eapply adv1_le; [|eassumption]. unfold le_s, lt_s in *; lia.
+Qed.
+
+Lemma scan_block_scalar_breaks_safe n s indent : wfs n s ->
+  safe n (adv1 n s) (scan_block_scalar_breaks s indent).
+Proof.
+  intros Hw. unfold scan_block_scalar_breaks.
+  eapply safe_bind. { apply skip_indent_safe; eassumption. }
+  intros s1 [Hw1 Hle1].
+  eapply safe_mono. { apply block_breaks_f_safe; [assumption | unfold fuel_of; lia]. }
+  intros a Ha. eapply adv1_le; eassumption.
+Qed.
+
+Lemma at_content_safe n s indent : wfs n s ->
+  safe n (fun o => match o with
+                   | Some ch => peek s 0 = Ok ch /\ is_end ch = false
+                   | None => True
+                   end) (at_content s indent).
+Proof.
+  intros Hw. unfold at_content. destruct (s_col s =? indent); [|exact I].
+  destruct (wfs_peek _ _ Hw) as [c [r [Hr Hpk]]]. rewrite Hpk. cbn [bind].
+  destruct (is_end c) eqn:E; cbn [negb safe]; auto.
+Qed.
+
+Definition adv3 {A B C} (n : N) (s : stream) (r : stream * A * B * C) : Prop :=
+  wfs n (fst (fst (fst r))) /\ le_s s (fst (fst (fst r))).
+
+Lemma block_lines_f_safe n folded indent : forall fuel s ch chunks breaks,
+  wfs n s -> peek s 0 = Ok ch -> is_end ch = false -> (length (s_rest s) < fuel)%nat ->
+  safe n (adv3 n s) (block_lines_f fuel folded indent s ch chunks breaks).
+Proof.
+  induction fuel as [|f IH]; intros s ch chunks breaks Hw Hpk Hne Hf; [lia|]. cbn [block_lines_f].
+  destruct (wfs_peek _ _ Hw) as [c [r [Hr Hpk']]]. rewrite Hpk in Hpk'. inversion Hpk'; subst c.
+  assert (Hstep : exists k s1, count_while (fun c => negb (mem_N c in_scan_block_scalar_1)) (s_rest s) = Ok k
+            /\ forward s k = Ok s1 /\ wfs n s1 /\ le_s s s1 /\
+            (lt_s s s1 \/ (s1 = s /\ is_lbc ch = true))).
+  { destruct (mem_N ch in_scan_block_scalar_1) eqn:E1.
+    - exists O, s. split; [rewrite Hr; apply count_while_zero; rewrite E1; reflexivity|].
+      split; [reflexivity|]. split; [assumption|]. split; [auto with opt|]. right. split; [reflexivity|].
+      pose proof (mem_forallb _ _ _ F_bs1 E1) as Hl. cbn beta in Hl. rewrite Hne in Hl. exact Hl.
+    - destruct (count_forward n (fun c => negb (mem_N c in_scan_block_scalar_1)) s) as
+          [k [s1 [Hk [Hfw [Hw1 Hlen]]]]]; [cbn beta; rewrite F_bs1_end; reflexivity | assumption |].
+      exists k, s1. split; [assumption|]. split; [assumption|]. split; [assumption|].
+      assert (Hk0 : k <> O).
+      { rewrite Hr in Hk. eapply count_while_pos; [eassumption|]. cbn beta. rewrite E1. reflexivity. }
+      split; [unfold le_s; lia|]. left. unfold lt_s. lia. }
+  destruct Hstep as [k [s1 [Hk [Hfw [Hw1 [Hle1 Hprog]]]]]].
+  rewrite Hk. cbn [bind]. rewrite Hfw. cbn [bind].
+  eapply safe_bind with (Q := fun r => wfs n (fst r) /\ lt_s s (fst r)).
+  { destruct Hprog as [Hlt|[Heq Hl]].
+    - eapply safe_mono. { apply scan_line_break_safe; eassumption. }
+      intros [s2 lb] (Hw2 & Hle2 & _). cbn [fst] in *. split; [assumption | unfold le_s, lt_s in *; lia].
+    - subst s1. eapply scan_line_break_progress; eassumption. }
+  intros [s2 lb] [Hw2 Hlt2]. cbn [fst] in *.
+  eapply safe_bind. { apply scan_block_scalar_breaks_safe; eassumption. }
+  intros [s3 br'] [Hw3 Hle3]. cbn [fst] in *.
+  eapply safe_bind. { apply at_content_safe; eassumption. }
+  intros [ch3|] Hac.
+  - destruct Hac as [Hpk3 Hne3].
+    eapply safe_mono. { apply IH; [assumption | eassumption | assumption | unfold le_s, lt_s in *; lia]. }
+    intros a [Ha1 Ha2]. split; [assumption | unfold le_s, lt_s in *; lia].
+  - cbn [safe]. split; cbn [fst]; [assumption | unfold le_s, lt_s in *; lia].
+Qed.
+
+Lemma scan_block_scalar_safe n s style : wfs n s -> peek s 0 = Ok style -> style <> 0 ->
+  safe n (prog1 n s) (scan_block_scalar s style).
+Proof.
+  intros Hw Hpk Hc. unfold scan_block_scalar.
+  destruct (forward_1 _ _ _ Hw Hpk Hc) as [s1 [H1 [Hw1 Hlt1]]]. rewrite H1. cbn [bind].
+  eapply safe_bind. { apply scan_block_scalar_indicators_safe; eassumption. }
+  intros [[s2 chomping] increment] [Hw2 Hle2]. cbn [fst] in *.
+  eapply safe_bind. { apply scan_block_scalar_ignored_line_safe; eassumption. }
+  intros s3 [Hw3 Hle3].
+  eapply safe_bind with (Q := adv2 n s3).
+  { destruct increment as [inc|].
+    - eapply safe_bind. { apply scan_block_scalar_breaks_safe; eassumption. }
+      intros [s4 brk] [Hw4 Hle4]. cbn [fst safe] in *. split; cbn [fst]; assumption.
+    - eapply safe_bind. { apply block_indentation_f_safe; [eassumption | unfold fuel_of; lia]. }
+      intros [[s4 brk] mx] [Hw4 Hle4]. cbn [fst safe] in *. split; cbn [fst]; assumption. }
+  intros [[s4 breaks] indent] [Hw4 Hle4]. cbn [fst] in *.
+  eapply safe_bind. { apply at_content_safe; eassumption. }
+  intros ac Hac.
+  eapply safe_bind with (Q := adv3 n s4).
+  { destruct ac as [ch|].
+    - destruct Hac as [Hpk4 Hne4]. apply block_lines_f_safe; [assumption | assumption | assumption | unfold fuel_of; lia].
+    - cbn [safe]. split; cbn [fst]; auto with opt. }
+  intros [[[s5 chunks] lb] br'] [Hw5 Hle5]. cbn [fst safe] in *.
+  split; cbn [fst]; [assumption | unfold le_s, lt_s in *; lia].
+Qed.
+
+(* ------------------------------------------------------------------ _tokenize *)
+
+Definition tok_ok (n : N) (t : token) : Prop :=
+  match t with TValue st _ => st <= n | _ => True end.
+
+Definition wsafe {A} (n : N) (Q : A -> Prop) (m : wres A) : Prop :=
+  Forall (tok_ok n) (fst m) /\ safe n Q (snd m).
+
+Lemma wsafe_bind {A B} n (Q : A -> Prop) (Q' : B -> Prop) (m : wres A) (f : A -> wres B) :
+  wsafe n Q m -> (forall a, Q a -> wsafe n Q' (f a)) -> wsafe n Q' (bindw m f).
+Proof.
+  destruct m as [ts [a|e]]; intros [H1 H2] Hf; cbn [fst snd safe] in *.
+  - unfold bindw. specialize (Hf a H2). destruct (f a) as [ts' r]. destruct Hf as [Hf1 Hf2].
+    cbn [fst snd] in *. split; [apply Forall_app; split; assumption | assumption].
+  - unfold bindw. split; cbn [fst snd]; assumption.
+Qed.
+
+Lemma wsafe_lift {A} n (Q : A -> Prop) (r : res A) : safe n Q r -> wsafe n Q (liftw r).
+Proof. intros H. split; [constructor | exact H]. Qed.
+
+Lemma wsafe_yield n t : tok_ok n t -> wsafe n (fun _ => True) (yield t).
+Proof. intros H. split; cbn; [repeat constructor; assumption | exact I]. Qed.
+
+Definition iter_post (n : N) (s : stream) (o : option stream) : Prop :=
+  match o with Some s' => wfs n s' /\ lt_s s s' | None => True end.
+
+Lemma quote_cases l c : forallb (fun c => (c =? c_squote) || (c =? c_dquote)) l = true ->
+  mem_N c l = true -> c = c_squote \/ c = c_dquote.
+Proof.
+  intros HF Hm. pose proof (mem_forallb _ _ _ HF Hm) as H. cbn beta in H.
+  apply orb_true_iff in H as [H|H]; apply N.eqb_eq in H; auto.
+Qed.
+
+Lemma tok_iter_safe n s : wfs n s -> wsafe n (iter_post n s) (tok_iter s).
+Proof.
+  intros Hw. unfold tok_iter.
+  eapply wsafe_bind. { apply wsafe_lift. apply stnt_safe. eassumption. }
+  intros s1 [Hw1 Hle1].
+  destruct (wfs_peek _ _ Hw1) as [c [r [Hr Hpk]]]. rewrite Hpk.
+  eapply wsafe_bind. { apply wsafe_lift. cbn [safe]. instantiate (1 := fun x => x = c). reflexivity. }
+  intros ? ->.
+  destruct (is_end c); [apply wsafe_lift; exact I|].
+  destruct (negb (s_col s1 =? 0)); [apply wsafe_lift; cbn [safe]; apply (wfs_idx _ _ Hw1)|].
+  eapply wsafe_bind with (Q := adv1 n s1).
+  { apply wsafe_lift. destruct (mem_N c in_tokenize_0) eqn:E0.
+    - eapply safe_mono. { apply scan_flow_scalar_safe; [eassumption | eassumption | eapply quote_cases; [apply F_tok0 | eassumption]]. }
+      intros a [Ha1 Ha2]. split; auto with opt.
+    - apply scan_plain_scalar_safe. assumption. }
+  intros [s2 k] [Hw2 Hle2]. cbn [fst] in *.
+  eapply wsafe_bind. { apply wsafe_yield. exact I. }
+  intros _ _.
+  eapply wsafe_bind. { apply wsafe_lift. apply stnt_safe. eassumption. }
+  intros s3 [Hw3 Hle3].
+  destruct (wfs_peek _ _ Hw3) as [c3 [r3 [Hr3 Hpk3]]]. rewrite Hpk3.
+  eapply wsafe_bind. { apply wsafe_lift. cbn [safe]. instantiate (1 := fun x => x = c3). reflexivity. }
+  intros ? ->.
+  destruct (c3 =? c_colon) eqn:Ec; cbn [negb]; [|apply wsafe_lift; cbn [safe]; apply (wfs_idx _ _ Hw3)].
+  apply N.eqb_eq in Ec. assert (Hc3 : c3 <> 0) by (subst; discriminate).
+  destruct (forward_1 _ _ _ Hw3 Hpk3 Hc3) as [s4 [H4 [Hw4 Hlt4]]]. rewrite H4.
+  eapply wsafe_bind. { apply wsafe_lift. cbn [safe]. instantiate (1 := fun x => x = s4). reflexivity. }
+  intros ? ->.
+  eapply wsafe_bind. { apply wsafe_yield. exact I. }
+  intros _ _.
+  eapply wsafe_bind. { apply wsafe_lift. apply stnt_safe. eassumption. }
+  intros s5 [Hw5 Hle5].
+  assert (Hlt5 : lt_s s s5) by (unfold le_s, lt_s in *; lia).
+  destruct (wfs_peek _ _ Hw5) as [c5 [r5 [Hr5 Hpk5]]]. rewrite Hpk5.
+  eapply wsafe_bind. { apply wsafe_lift. cbn [safe]. instantiate (1 := fun x => x = c5). reflexivity. }
+  intros ? ->.
+  destruct (s_col s5 =? 0); [apply wsafe_lift; cbn [safe iter_post]; auto|].
+  eapply wsafe_bind with (Q := adv1 n s5).
+  { apply wsafe_lift. destruct (mem_N c5 in_tokenize_1) eqn:E1.
+    - eapply safe_mono. { apply scan_block_scalar_safe; [eassumption | eassumption | eapply mem_nz; [apply F_tok1_nz | eassumption]]. }
+      intros a [Ha1 Ha2]. split; auto with opt.
+    - destruct (mem_N c5 in_tokenize_2) eqn:E2.
+      + eapply safe_mono. { apply scan_flow_scalar_safe; [eassumption | eassumption | eapply quote_cases; [apply F_tok2 | eassumption]]. }
+        intros a [Ha1 Ha2]. split; auto with opt.
+      + apply scan_plain_scalar_safe. assumption. }
+  intros [s6 v] [Hw6 Hle6]. cbn [fst] in *.
+  eapply wsafe_bind. { apply wsafe_yield. cbn [tok_ok]. apply (wfs_idx _ _ Hw5). }
+  intros _ _. apply wsafe_lift. cbn [safe iter_post]. split; [assumption | unfold le_s, lt_s in *; lia].
+Qed.
+
+Definition pending_ok (n : N) (e : option exn) : Prop :=
+  match e with
+  | None => True
+  | Some (TokenizeError p) => p <= n
+  | Some _ => False
+  end.
+
+Lemma tokenize_f_safe n : forall fuel s, wfs n s -> (length (s_rest s) < fuel)%nat ->
+  Forall (tok_ok n) (fst (tokenize_f fuel s)) /\ pending_ok n (snd (tokenize_f fuel s)).
+Proof.
+  induction fuel as [|f IH]; intros s Hw Hf; [lia|]. cbn [tokenize_f].
+  destruct (tok_iter_safe n s Hw) as [H1 H2].
+  destruct (tok_iter s) as [ts [[s'|]|e]]; cbn [fst snd safe iter_post] in *.
+  - destruct H2 as [Hw' Hlt']. destruct (IH s' Hw') as [H3 H4]; [unfold lt_s in *; lia|].
+    destruct (tokenize_f f s') as [ts' e']. cbn [fst snd] in *. split; [apply Forall_app; split; assumption | assumption].
+  - split; [assumption | exact I].
+  - split; [assumption|]. destruct e; cbn [pending_ok]; auto.
+Qed.
+
+Lemma new_stream_wfs text : wfs (N.of_nat (length text)) (new_stream text).
+Proof.
+  unfold new_stream, wfs. cbn [s_idx s_rest]. rewrite F_end. split; [|eauto].
+  rewrite app_length. cbn [length]. lia.
+Qed.
+
+Lemma to_items_safe n : forall toks pending key, Forall (tok_ok n) toks -> pending_ok n pending ->
+  safe n (fun _ => True) (to_items toks pending key).
+Proof.
+  induction toks as [|t toks IH]; intros pending key HF Hp; cbn [to_items].
+  - destruct pending as [e|]; [|exact I]. destruct e; cbn [pending_ok safe] in *; auto.
+  - inversion HF as [|? ? Ht HF']; subst. destruct t as [k| |st v].
+    + eapply safe_bind; [apply IH; assumption|]. intros; exact I.
+    + apply IH; assumption.
+    + destruct key as [k0|]; [|cbn [safe]; exact Ht].
+      eapply safe_bind; [apply IH; assumption|]. intros; exact I.
+Qed.
+
+(* the tokenizer returns pairs or raises TokenizeError with an index inside the text *)
+Theorem options_to_items_safe text :
+  safe (N.of_nat (length text)) (fun _ => True) (options_to_items text).
+Proof.
+  unfold options_to_items, tokenize.
+  pose proof (tokenize_f_safe _ (fuel_of (new_stream text)) (new_stream text) (new_stream_wfs text)) as H.
+  destruct H as [H1 H2]; [unfold fuel_of; lia|].
+  destruct (tokenize_f (fuel_of (new_stream text)) (new_stream text)) as [toks pending].
+  cbn [fst snd] in *. apply to_items_safe; assumption.
+Qed.
+
+Theorem terminates text : options_to_items text <> Raise OutOfFuel.
+Proof. pose proof (options_to_items_safe text) as H. intros E. rewrite E in H. exact H. Qed.
+
+Theorem in_bounds text : options_to_items text <> Raise IndexError.
+Proof. pose proof (options_to_items_safe text) as H. intros E. rewrite E in H. exact H. Qed.
+
+Theorem only_tokenize_error text :
+  (exists pairs, options_to_items text = Ok pairs) \/
+  (exists p, options_to_items text = Raise (TokenizeError p) /\ p <= N.of_nat (length text)).
+Proof.
+  pose proof (options_to_items_safe text) as H.
+  destruct (options_to_items text) as [a|e]; [left; eauto|].
+  destruct e; cbn [safe] in H; try contradiction. right. eauto.
+Qed.
